@@ -114,3 +114,18 @@ def run_cli(module, args, cwd, stdin=None, timeout=120, env=None):
                        stderr=subprocess.PIPE, env=sub_env(env),
                        timeout=timeout)
     return p.returncode, p.stdout, p.stderr
+
+
+FAKELT = os.path.join(os.path.dirname(os.path.abspath(__file__)), 'fakelt.py')
+
+
+def run_shell(args, cwd, plan=None, timeout=120, stdin=None):
+    """python -m yalafi.shell with the fake proofreader; plan = dict written to <cwd>/plan.json"""
+    import json as _json
+    a = ['--no-config']
+    if plan is not None:
+        pf = os.path.join(cwd, 'plan.json')
+        with open(pf, 'w', encoding='utf-8') as f:
+            _json.dump(plan, f, ensure_ascii=False)
+        a += ['--lt-command', '/usr/bin/python3 -S %s %s' % (FAKELT, pf)]
+    return run_cli('yalafi.shell', a + list(args), cwd=cwd, timeout=timeout, stdin=stdin)
